@@ -189,13 +189,14 @@ theorem lookup_sites_agree (r : Rules) (name : Str) :
 every buffered trace and every span of it that was handed to the collector with the trace's own
 (key, environment, dataset): the selector the ingestion site computed is the selector `makeDecision`
 computes, and the fields ingestion selected for extraction are the key fields of the sampler that
-will decide (`GetSamplingKeyFieldsForDestName` and `GetSamplerConfigForDestName` agree). -/
+will decide, under whatever rules `r` are in force at both moments
+(`GetSamplingKeyFieldsForDestName` and `GetSamplerConfigForDestName` agree). -/
 theorem ingest_decide_agree (c : Cfg) (ops : List Op) (tid : Str) (t : TraceSt)
     (h : AList.get (run c ops).traces tid = some t) (sp : SpanSt) (hsp : sp ∈ t.spans)
-    (hk : sp.key = t.key) (he : sp.env = t.env) (hd : sp.ds = t.ds) :
+    (hk : sp.key = t.key) (he : sp.env = t.env) (hd : sp.ds = t.ds) (r : Rules) :
     (∀ sel, sp.ingSel = some sel → sel = decideSel c t) ∧
-    ingestFields c.rules c.pfx sp.key sp.env sp.ds =
-      match lookupSampler c.rules (decideSel c t) with
+    ingestFields r c.pfx sp.key sp.env sp.ds =
+      match lookupSampler r (decideSel c t) with
       | some s => (keyFields (samplingFields s)).map (·.1)
       | none => some [] := by
   have hinv := inv_run c ops tid t h
@@ -205,7 +206,7 @@ theorem ingest_decide_agree (c : Cfg) (ops : List Op) (tid : Str) (t : TraceSt)
     rw [this, decideSel, hk, he, hd]
   · unfold ingestFields decideSel
     rw [hk, he, hd, lookup_sites_agree]
-    cases lookupSampler c.rules (samplerKey c.pfx t.key t.env t.ds) with
+    cases lookupSampler r (samplerKey c.pfx t.key t.env t.ds) with
     | some s => rfl
     | none => simp [keyFields]
 
@@ -231,6 +232,65 @@ theorem uniform_trace_agree (c : Cfg) (ops : List Op) (tid : Str) (t : TraceSt)
   intro sp hsp sel hs'
   rw [h1 sp hsp sel hs', hsel, (hu sp hsp).1, (hu sp hsp).2.1, (hu sp hsp).2.2]
 
+
+/-! ## Reloads -/
+
+theorem rules_fold (c : Cfg) (ops : List Op) (s : St) :
+    curRules c (ops.foldl (fun s o => (step c s o).1) s) =
+      ops.foldl (fun r o => match o with
+        | .reload r' => if acceptRules c r' then r' else r
+        | _ => r) (curRules c s) := by
+  induction ops generalizing s with
+  | nil => rfl
+  | cons o t ih =>
+    simp only [List.foldl_cons]
+    rw [ih]
+    congr 1
+    cases o with
+    | classify k => rfl
+    | selkey k e d => rfl
+    | lookup n => rfl
+    | span path key env ds data =>
+      simp only [step]
+      cases routeSpan (cur c s) path key env ds data with
+      | nosampler => rfl
+      | nothing => rfl
+      | panic => rfl
+      | event => rfl
+      | span tid sp =>
+        simp only
+        split
+        · rfl
+        · rfl
+    | decide tid =>
+      simp only [step]
+      split
+      · rfl
+      · cases AList.get s.traces tid <;> rfl
+    | reload r =>
+      simp only [step]
+      split <;> simp_all [curRules]
+
+/-- The rules in force after any history are those of the last accepted reload (the start-up rules
+if there was none). -/
+theorem rules_after (c : Cfg) (ops : List Op) : curRules c (run c ops) = lastAccepted c ops :=
+  rules_fold c ops {}
+
+/-- **selection_follows_current_rules** — after any history of requests, decisions and rules reloads
+(accepted or rejected), the sampler and the key fields chosen for *every* destination name — with
+its own entry or falling back to `__default__` — are the selection function applied to the rules of
+the last accepted reload; and a buffered trace is decided by the sampler those rules give. Nothing
+of an earlier rules file survives. -/
+theorem selection_follows_current_rules (c : Cfg) (ops : List Op) :
+    (∀ n, (step c (run c ops) (.lookup n)).2 =
+        .looked (lookupSampler (lastAccepted c ops) n) (lookupFields (lastAccepted c ops) n)) ∧
+    (∀ tid t, AList.get (run c ops).traces tid = some t → AList.get (lastAccepted c ops) defaultName ≠ none →
+        (step c (run c ops) (.decide tid)).2 = decideTrace { c with rules := lastAccepted c ops } t) := by
+  constructor
+  · intro n
+    simp only [step, rules_after]
+  · intro tid t h hd
+    simp only [step, h, cur, rules_after, hd, if_false]
 
 /-! ## Fields available at decision time -/
 
@@ -329,7 +389,7 @@ theorem fields_available_at_decision (c : Cfg) (ops : List Op) (tid : Str) (t : 
     (hid : f ∉ c.tids ∧ f ∉ c.pids) :
     (memoize keys sp.pay).get f = some v := by
   obtain ⟨skf, data, hp⟩ := spans_inv c (fun sp => ∃ skf data, sp.pay = extract c.tids c.pids skf data)
-    (fun path key env ds data tid sp hr => by
+    (fun r path key env ds data tid sp hr => by
       obtain ⟨skf, hs⟩ := route_span_pay hr
       exact ⟨skf, data, hs⟩) ops tid t h sp hsp
   have hd : sp.pay.data = data := by rw [hp]; rfl
@@ -364,6 +424,13 @@ example : lookupSampler exRules (ascii "prod") = some { kind := .dyn, rate := 5,
 example : (lookupSampler exRules (ascii "staging")).map (·.rate) = some 2 := by decide
 example : ingestFields exRules [] kEnvIngest (ascii "prod") (ascii "ds1") = some [ascii "f2", ascii "f1"] := by decide
 example : keyFields [[]] = some ([], []) := by decide
+-- a reload that changes only `__default__` changes the sampler of every destination without an entry
+example : (step { pfx := [], tids := [], pids := [], rules := exRules }
+    (run { pfx := [], tids := [], pids := [], rules := exRules }
+      [.reload [(defaultName, { kind := .det, rate := 9, fields := [] })]]) (.lookup (ascii "staging"))).2
+    = .looked (some { kind := .det, rate := 9, fields := [] }) [] := by decide
+-- a rules file without `__default__` is rejected under validation: the old rules stay
+example : lastAccepted { pfx := [], tids := [], pids := [], rules := exRules } [.reload []] = exRules := by decide
 -- a field that is not an id field is read back although ingestion selected nothing of the sort
 example : (memoize [ascii "f1"] (extract [ascii "trace.trace_id"] [ascii "trace.parent_id"] [ascii "zz"]
     [(ascii "trace.trace_id", .str (ascii "t1")), (ascii "f1", .int 7)])).get (ascii "f1") = some (.int 7) := by decide
